@@ -389,6 +389,19 @@ def r15_5(ctx, g):
     repo = ctx.repo
     f = repo.func("gaftools.gfa", "GFA.biccs", "R15.5")
     ctx.analysed_func(f)
+    # no short cut for small inputs that a graph with a link can take: two linked nodes are one component
+    from .c09 import guards_of as _gof15
+    import operator as _op15
+
+    for r_ in walk_own(f.node):
+        if isinstance(r_, ast.Return) and r_.value is not None and all(isinstance(e_, (ast.List, ast.Set, ast.Dict, ast.Tuple)) and not getattr(e_, "elts", getattr(e_, "keys", None)) or (isinstance(e_, ast.Call) and norm(e_.func) in ("set", "list", "dict") and not e_.args) for e_ in (r_.value.elts if isinstance(r_.value, ast.Tuple) and r_.value.elts else [r_.value])):
+            for t_, pol_ in _gof15(f.node, r_):
+                c_ = t_.operand if isinstance(t_, ast.UnaryOp) and isinstance(t_.op, ast.Not) else t_
+                neg_ = c_ is not t_
+                if isinstance(c_, ast.Compare) and len(c_.ops) == 1 and isinstance(c_.left, ast.Call) and norm(c_.left.func) == "len" and isinstance(const_value(c_.comparators[0], None), int):
+                    fn_ = {ast.Eq: _op15.eq, ast.NotEq: _op15.ne, ast.Lt: _op15.lt, ast.LtE: _op15.le, ast.Gt: _op15.gt, ast.GtE: _op15.ge}.get(type(c_.ops[0]))
+                    if fn_ is not None and any((fn_(n_, const_value(c_.comparators[0])) != neg_) == pol_ for n_ in (2, 3, 4)):
+                        ctx.violated("R15.5", f.where(r_), f"biccs returns the empty result when `{norm(t_)[:40]}`, which a node set with links in it satisfies: two linked nodes are one biconnected component, and the link between them must lie in exactly one component", key_of(f, f"small-graph-shortcut:{norm(t_)[:30]}"))
     f = _nf(repo, f)  # private helpers of the class (static or not) are read in place
     everything = list(ast.walk(f.node))  # including nested helper functions: they operate on the same stack
     nested = {n.name: n for n in everything if isinstance(n, ast.FunctionDef) and n is not f.node}
